@@ -22,9 +22,117 @@ import (
 	"sigs.k8s.io/yaml"
 	"tags.cncf.io/container-device-interface/pkg/cdi"
 	"tags.cncf.io/container-device-interface/schema"
+	specs "tags.cncf.io/container-device-interface/specs-go"
 )
 
 func init() { register("C19", checkC19) }
+
+// yamlTree is the generic tree yaml.v3 makes of obj (its key naming, its
+// treatment of empty members). Multi-line strings do not go through YAML text:
+// a copy of obj carries a token in place of each, the tree gets them back (a
+// printed document has to parse to this tree, whatever the text is).
+func yamlTree(obj any) any {
+	var table []string
+	tok := func(s string) string {
+		if !strings.Contains(s, "\n") {
+			return s
+		}
+		table = append(table, s)
+		return fmt.Sprintf("verif-token-%d-", len(table)-1)
+	}
+	var cp func(v reflect.Value) reflect.Value
+	cp = func(v reflect.Value) reflect.Value {
+		switch v.Kind() {
+		case reflect.String:
+			out := reflect.New(v.Type()).Elem()
+			out.SetString(tok(v.String()))
+			return out
+		case reflect.Ptr:
+			if v.IsNil() {
+				return v
+			}
+			out := reflect.New(v.Type().Elem())
+			out.Elem().Set(cp(v.Elem()))
+			return out
+		case reflect.Interface:
+			if v.IsNil() {
+				return v
+			}
+			out := reflect.New(v.Type()).Elem()
+			out.Set(cp(v.Elem()))
+			return out
+		case reflect.Struct:
+			out := reflect.New(v.Type()).Elem()
+			out.Set(v)
+			for i := 0; i < v.NumField(); i++ {
+				if out.Field(i).CanSet() {
+					out.Field(i).Set(cp(v.Field(i)))
+				}
+			}
+			return out
+		case reflect.Slice:
+			if v.IsNil() {
+				return v
+			}
+			out := reflect.MakeSlice(v.Type(), v.Len(), v.Len())
+			for i := 0; i < v.Len(); i++ {
+				out.Index(i).Set(cp(v.Index(i)))
+			}
+			return out
+		case reflect.Map:
+			if v.IsNil() {
+				return v
+			}
+			out := reflect.MakeMapWithSize(v.Type(), v.Len())
+			for _, k := range v.MapKeys() {
+				out.SetMapIndex(cp(k), cp(v.MapIndex(k)))
+			}
+			return out
+		}
+		return v
+	}
+	var back func(v any) any
+	untok := func(s string) string {
+		var i int
+		if n, _ := fmt.Sscanf(s, "verif-token-%d-", &i); n == 1 && i < len(table) && s == fmt.Sprintf("verif-token-%d-", i) {
+			return table[i]
+		}
+		// (a token inside a longer string: NAME=<token>)
+		for i, t := range table {
+			s = strings.ReplaceAll(s, fmt.Sprintf("verif-token-%d-", i), t)
+		}
+		return s
+	}
+	back = func(v any) any {
+		switch x := v.(type) {
+		case string:
+			return untok(x)
+		case map[string]any:
+			m := map[string]any{}
+			for k, e := range x {
+				m[untok(k)] = back(e)
+			}
+			return m
+		case map[any]any:
+			m := map[any]any{}
+			for k, e := range x {
+				m[back(k)] = back(e)
+			}
+			return m
+		case []any:
+			for i, e := range x {
+				x[i] = back(e)
+			}
+			return x
+		}
+		return v
+	}
+	wb, err := yamlv3.Marshal(cp(reflect.ValueOf(obj)).Interface())
+	must(err)
+	var out any
+	must(yamlv3.Unmarshal(wb, &out))
+	return back(out)
+}
 
 type cliResult struct {
 	out  string
@@ -52,10 +160,10 @@ func runCLI(bin string, stdin []byte, args ...string) cliResult {
 }
 
 var (
-	reNumbered  = regexp.MustCompile(`(?m)^\s+\d+\. (.*)$`)
+	reNumbered  = regexp.MustCompile(`(?m)^[ \t]+\d+\. (.*)$`)
 	reVendor    = regexp.MustCompile(`^"(.*)" \((\d+) CDI Spec Files\)$`)
 	reClass     = regexp.MustCompile(`^(\S+) \((\d+) vendors: (.*)\)$`)
-	reSpecFile  = regexp.MustCompile(`(?m)^\s+Spec File (.*)$`)
+	reSpecFile  = regexp.MustCompile(`(?m)^[ \t]+Spec File (.*)$`)
 	reErrFile   = regexp.MustCompile(`(?m)^Spec file (.*):$`)
 	reDirLine   = regexp.MustCompile(`(?m)^  (\S.*) \(priority (\d+)\)$`)
 	reVerboseDv = regexp.MustCompile(`(?m)^  (\S+) \((.*)\)$`)
@@ -146,6 +254,13 @@ func checkC19(c *Ctx) {
 			}
 		}
 		p.Write()
+		popLead := false
+		leadTags := func(yamlOut bool, t map[string]string) map[string]string {
+			if popLead && yamlOut {
+				t["multi_line_text_with_leading_blank_or_break_in_yaml_output"] = "true"
+			}
+			return t
+		}
 		if chance(r, 20) {
 			// a file only the schema validator (which the tool installs by default, and
 			// the reference has installed too) refuses: a negative hook timeout
@@ -164,6 +279,30 @@ func checkC19(c *Ctx) {
 				if p.Exists[i] {
 					must(os.WriteFile(filepath.Join(d, "zz-apply-fails.json"), []byte(`{"cdiVersion":"0.6.0","kind":"failing.org/dev","devices":[{"name":"gone","containerEdits":{"deviceNodes":[{"path":"/dev/verif-no-such-host-node"}]}}]}`), 0o644))
 					c.Count("populations_with_a_device_that_fails_at_apply_time", 1)
+					break
+				}
+			}
+		}
+		if chance(r, 35) {
+			// free text that a block or quoted scalar has to carry unchanged when the tool
+			// prints it: blank lines, trailing and leading blanks, things that look like YAML
+			texts := []string{"one\n\nthree", "a\n\n\nb\n", "trail\n\n", "x: y\n\n# c", "tab\there\n\n\tthere", "- a\n\n- b", "|\n\n>", "a\n  indented\n\n  more"}
+			if chance(r, 25) {
+				// (multi-line text that begins with a blank or a line break: see known-findings.json)
+				texts = []string{"\n\nlead", "  indented\n\n  more", "\tx\ny", " a\nb"}
+				popLead = true
+			}
+			t1, t2 := texts[r.Intn(len(texts))], texts[r.Intn(len(texts))]
+			txt := &specs.Spec{Version: "0.6.0", Kind: "text.org/dev", Annotations: map[string]string{"text": t1},
+				Devices: []specs.Device{{Name: "t", Annotations: map[string]string{"note": t2}, ContainerEdits: specs.ContainerEdits{
+					Env:    []string{"TEXT=" + t1, "NOTE=" + t2},
+					Hooks:  []*specs.Hook{{HookName: "prestart", Path: "/bin/h", Args: []string{"h", t2}, Env: []string{"T=" + t1}}},
+					Mounts: []*specs.Mount{{HostPath: "/h", ContainerPath: "/c", Options: []string{"ro", t1}}}}}}}
+			for i, d := range p.Phys {
+				if p.Exists[i] {
+					enc := pickStr(r, "json", "yaml")
+					must(os.WriteFile(filepath.Join(d, "zz-text."+enc), specBytes(txt, enc), 0o644))
+					c.Count("populations_with_multi_line_text", 1)
 					break
 				}
 			}
@@ -253,7 +392,7 @@ func checkC19(c *Ctx) {
 			c.Distinct(fmt.Sprintf("%s|%v|%d", sc.name, hasErr, len(df)))
 			wit := map[string]any{"args": args, "exit": res.code, "output": clip(res.out, 6000), "population": p.Describe(), "library_error_keys": errKeys}
 			fail := func(class, format string, a ...any) {
-				cs.Violation(class, map[string]string{"subcommand": sc.name}, fmt.Sprintf("cdi %s: ", strings.Join(args, " "))+fmt.Sprintf(format, a...), wit)
+				cs.Violation(class, leadTags(strings.Contains(strings.Join(sc.args, " "), "yaml"), map[string]string{"subcommand": sc.name}), fmt.Sprintf("cdi %s: ", strings.Join(args, " "))+fmt.Sprintf(format, a...), wit)
 			}
 			if res.err != nil {
 				c.Inconclusive("exec")
@@ -477,7 +616,7 @@ func checkC19(c *Ctx) {
 					_, ierr := ref.InjectDevices(refSpec, req...)
 					wit := map[string]any{"args": args, "exit": res.code, "output": clip(res.out, 8000), "patterns": patterns, "matched_devices": req, "oci_input": string(data), "population": p.Describe()}
 					fail := func(class, format string, a ...any) {
-						cs.Violation(class, map[string]string{"subcommand": "inject"}, fmt.Sprintf("cdi %s: ", strings.Join(args, " "))+fmt.Sprintf(format, a...), wit)
+						cs.Violation(class, leadTags(format != "json", map[string]string{"subcommand": "inject"}), fmt.Sprintf("cdi %s: ", strings.Join(args, " "))+fmt.Sprintf(format, a...), wit)
 					}
 					if (res.code != 0) != (ierr != nil) {
 						fail("exit-status", "exit status %d, library injection error: %v", res.code, ierr)
@@ -504,8 +643,7 @@ func checkC19(c *Ctx) {
 						json.Unmarshal(wb, &want)
 					} else {
 						perr = yamlv3.Unmarshal([]byte(body), &got)
-						wb, _ := yamlv3.Marshal(refSpec)
-						yamlv3.Unmarshal(wb, &want)
+						want = yamlTree(refSpec)
 					}
 					if perr != nil {
 						fail("inject-output", "printed OCI spec does not parse as %s: %v", eff, perr)
@@ -666,8 +804,7 @@ func sameTree(text string, obj any, format string) (bool, string) {
 		if err := yamlv3.Unmarshal([]byte(text), &got); err != nil {
 			return false, "output does not parse as YAML: " + err.Error() + ": " + clip(text, 300)
 		}
-		wb, _ := yamlv3.Marshal(obj)
-		yamlv3.Unmarshal(wb, &want)
+		want = yamlTree(obj)
 	}
 	if !reflect.DeepEqual(normTree(got), normTree(want)) {
 		gj, _ := json.Marshal(normTree(got))
